@@ -449,11 +449,19 @@ def check_legality_matrix(ctx):
             ctx.ok("C14.4", f.qualname, f"{k}: rejects exactly {sorted(map(str, ref))} (16 flag valuations)")
     ctx.counters["legality_cells"] = n
     # other documented illegal forms
+    def _is_cmp(t, left_pred, op_types, right_pred):
+        return isinstance(t, ast.Compare) and len(t.ops) == 1 and isinstance(t.ops[0], op_types) and left_pred(t.left) and right_pred(t.comparators[0])
+
+    def _const(v):
+        return lambda e: isinstance(e, ast.Constant) and e.value == v
+
+    _name = lambda e: isinstance(e, ast.Name)  # noqa: E731  (the token variable, whatever it is called)
     txt_checks = [
         ("second multi-axis specifier", lambda s: isinstance(s, ast.If) and norm(s.test) == "index_variadic is not None" and _raises_value_error(s.body)),
-        ("`...` combined with anything else", lambda s: isinstance(s, ast.If) and norm(s.test) == "elem != '...'" and _raises_value_error(s.body)),
-        ("comma-separated axes", lambda s: isinstance(s, ast.If) and "',' in elem" in norm(s.test) and _raises_value_error(s.body)),
-        ("trailing `#`", lambda s: isinstance(s, ast.If) and norm(s.test) == "elem.endswith('#')" and _raises_value_error(s.body)),
+        ("`...` combined with anything else", lambda s: isinstance(s, ast.If) and _is_cmp(s.test, _name, ast.NotEq, _const("...")) and _raises_value_error(s.body)),
+        ("comma-separated axes", lambda s: isinstance(s, ast.If) and any(_is_cmp(x, _const(","), ast.In, _name) for x in ast.walk(s.test)) and _raises_value_error(s.body)),
+        ("trailing `#`", lambda s: isinstance(s, ast.If) and isinstance(s.test, ast.Call) and isinstance(s.test.func, ast.Attribute) and s.test.func.attr == "endswith"
+            and isinstance(s.test.func.value, ast.Name) and s.test.args and _const("#")(s.test.args[0]) and _raises_value_error(s.body)),
     ]
     for label, pred in txt_checks:
         hits = [s for s in ast.walk(f.node) if pred(s)]
